@@ -1046,6 +1046,18 @@ pub fn run(out: &mut Out, rng: &mut Rng, thorough: bool) {
 			ctx.out.count("transcode.exhaustive.planted");
 		}
 	}
+	if !thorough {
+		// depth 3 × width 2 over one leaf, scalar map keys
+		let deep = shapes(3, 2, &leaves[..1], 1);
+		ctx.out.counters.insert("transcode.exhaustive.shapes_depth3_width2".to_string(), deep.len() as u64);
+		for t in &deep {
+			ctx.all_scripts(t, false, false);
+			for planted in plant_all(t, 3) {
+				ctx.all_scripts(&planted, false, false);
+				ctx.out.count("transcode.exhaustive.planted");
+			}
+		}
+	}
 	if thorough {
 		// depth 3 × width 3 with scalar map keys (composite keys are covered
 		// at width 2 above)
